@@ -243,18 +243,15 @@ DEV_CRLF = 'input:quoted-field-starting-with-CRLF:LF-lost'
 KEY_Q255 = 'input:quoted-field-of-255-chars:closing-quote-left-unread'
 
 
-def _mech(case, default):
+def _mech(seen_items, default):
     """
-    A quoted field of exactly 255 characters is known to derail the reader for the rest of the
-    file (quote parity flips), so the first deviating item is not the cause: every read-back
-    deviation in a WRITE# history containing such a field is keyed by that mechanism.
+    A quoted field of exactly 255 characters derailed the reader for the rest of the file (quote
+    parity flips: fixed in /repo since), so the first deviating item is not the cause: a read-back
+    deviation at or after such a field is keyed by that mechanism.
     """
-    if case['cls'] == 'write':
-        for s in case['sessions']:
-            for items in s['stmts']:
-                for it in items:
-                    if it[0] == 's' and len(it[1]) == 255:
-                        return KEY_Q255
+    for it in seen_items:
+        if it[0] == 's' and len(it[1]) == 255:
+            return KEY_Q255
     return default
 
 
@@ -367,7 +364,7 @@ def run_write_history(box, case, res, directed=False):
         e = _int(box, b'EOF(%d)' % rn)
         res.count('eof_checks')
         if e != 0:
-            res.violation(_mech(case, 'eof:true-before-last-item'), 'EOF=%r with %d of %d items still unread' % (e, len(all_items) - pos, len(all_items)), case)
+            res.violation(_mech(all_items[:pos + 6], 'eof:true-before-last-item'), 'EOF=%r with %d of %d items still unread' % (e, len(all_items) - pos, len(all_items)), case)
             raise Stop()
         names = []
         for j, it in enumerate(group):
@@ -382,7 +379,7 @@ def run_write_history(box, case, res, directed=False):
         out = box.ex(b'INPUT #%d, %s' % (rn, b', '.join(names)))
         code, _ = harness.err_of(out)
         if code or out.strip():
-            res.violation(_mech(case, 'input:error-on-existing-item'), 'INPUT# of items %d.. -> %r' % (pos, out), case)
+            res.violation(_mech(all_items[:pos + 6], 'input:error-on-existing-item'), 'INPUT# of items %d.. -> %r' % (pos, out), case)
             raise Stop()
         for j, it in enumerate(group):
             if it[0] == 's':
@@ -394,7 +391,7 @@ def run_write_history(box, case, res, directed=False):
                     # exactly the recorded deviation: the LF of a leading CR LF is lost, everything else intact
                     res.violation(DEV_CRLF, 'item %d: wrote %r..., read %r...' % (pos + j, it[1][:12], got[:12]), case)
                 elif got != it[1]:
-                    res.violation(_mech(case, 'input:string-differs'),
+                    res.violation(_mech(all_items[:pos + 6], 'input:string-differs'),
                                   'item %d: wrote %r (len %d), read %r (len %d)' % (pos + j, it[1][:40], len(it[1]), got[:40], len(got)), case)
                     raise Stop()
             else:
@@ -411,13 +408,13 @@ def run_write_history(box, case, res, directed=False):
                 gv = rnum.decode(got)
                 tol = M.number_tolerance(text, len(got), got)
                 if abs(gv - x) > tol:
-                    res.violation(_mech(case, 'input:number-value-differs-from-written-text:%s' % {2: 'integer', 4: 'single', 8: 'double'}[len(got)]),
+                    res.violation(_mech(all_items[:pos + 6], 'input:number-value-differs-from-written-text:%s' % {2: 'integer', 4: 'single', 8: 'double'}[len(got)]),
                                   'text %r read into %s gives %s (bytes %s): off by %.3g' % (text, names[j].decode(), float(gv), got.hex(), float(gv - x)), case)
                     raise Stop()
                 box.set('T$', text)
                 via = box.ev(fn + b'(VAL(T$))')
                 if via != got:
-                    res.violation(_mech(case, 'input:number-differs-from-VAL-of-text'),
+                    res.violation(_mech(all_items[:pos + 6], 'input:number-differs-from-VAL-of-text'),
                                   'text %r: INPUT# gives %s, VAL gives %s' % (text, got.hex(), via.hex() if via else via), case)
                     raise Stop()
         pos += g
@@ -425,7 +422,7 @@ def run_write_history(box, case, res, directed=False):
     res.count('eof_checks')
     res.count('eof_true_seen' if e == -1 else 'eof_not_true_at_end')
     if e != -1:
-        res.violation(_mech(case, 'eof:false-after-last-item'), 'EOF=%r after all %d items were read' % (e, len(all_items)), case)
+        res.violation(_mech(all_items[:pos + 6], 'eof:false-after-last-item'), 'EOF=%r after all %d items were read' % (e, len(all_items)), case)
         raise Stop()
     _ok(box, res, b'CLOSE', case, 'close')
     res.count('files')
